@@ -121,11 +121,17 @@ func runC07(p *Program, r *Report) {
 		}
 	}
 	// Walk / WalkVersions: the skipdirs test returns SkipDir before getObj is called
-	for _, name := range []string{"backend.Walk$1", "backend.WalkVersions$1"} {
-		f := p.Func(name)
+	for _, outerName := range []string{"backend.Walk", "backend.WalkVersions"} {
+		cbs := walkCallbacks(p.Func(outerName))
+		if len(cbs) == 0 {
+			r.Viol("R-C07-1", outerName+"/walk-callback", p.Pos(p.Func(outerName).Pos()), "no function literal is handed to fs.WalkDir (anchor drift)")
+			continue
+		}
+		f := cbs[0]
+		name := outerName + "$callback"
 		var skip []condEdge
 		for _, ce := range condEdgesOf(f) {
-			if c, ok := ce.cond.(*ssa.Call); ok && calleeName(c) == "backend.contains" {
+			if c, ok := ce.cond.(*ssa.Call); ok && isSkipdirsTest(c) {
 				skip = append(skip, ce)
 			}
 		}
@@ -813,7 +819,7 @@ func runC16(p *Program, r *Report) {
 	bad := len(rd) == 0
 	reach := reachableAvoiding(ib, nil, nil, avoid)
 	for _, s := range errReturnSites(ib) {
-		if isNilConst(s.val) && reach[s.ret.Block()] {
+		if isNilConst(s.val) && s.reachedIn(reach) {
 			bad = true
 		}
 	}
@@ -1414,4 +1420,43 @@ func controlsC18() []Control {
 		{Name: "s3proxy PutObjectTagging: nil TagSet for an empty tag map", Rule: "R-C18-1", File: "backend/s3proxy/s3.go",
 			Old: "\ttagging := &types.Tagging{\n\t\tTagSet: []types.Tag{},\n\t}", New: "\ttagging := &types.Tagging{}", Expect: "TagSet"},
 	}
+}
+
+// walkCallbacks: the function literals of outer that are handed to fs.WalkDir.
+func walkCallbacks(outer *ssa.Function) []*ssa.Function {
+	var out []*ssa.Function
+	for _, c := range callsTo(outer, "io/fs.WalkDir") {
+		for _, a := range callArgs(c) {
+			v := a
+			if ct, ok := v.(*ssa.ChangeType); ok {
+				v = ct.X
+			}
+			if mc, ok := v.(*ssa.MakeClosure); ok {
+				if g, ok := mc.Fn.(*ssa.Function); ok {
+					out = append(out, g)
+				}
+			}
+		}
+	}
+	return out
+}
+
+// isSkipdirsTest: contains(x, skipdirs) of the backend package or slices.Contains(skipdirs, x), with skipdirs the
+// parameter (or captured variable) of that name.
+func isSkipdirsTest(c *ssa.Call) bool {
+	cn := calleeName(c)
+	if cn != "backend.contains" && !strings.HasPrefix(cn, "slices.Contains") {
+		return false
+	}
+	for _, a := range c.Call.Args {
+		for _, rt := range Origins(a, nil) {
+			if (rt.Kind == "param" || rt.Kind == "freevar") && rt.Desc == "skipdirs" {
+				return true
+			}
+		}
+		if atomsOf(a)["param:skipdirs"] {
+			return true
+		}
+	}
+	return false
 }
